@@ -102,7 +102,7 @@ func (nb *nativeBuild) run(m *interp.ReplayModel, saveDir string) *nativeResult 
 func runNativeBin(bin, modelPath string, timeout time.Duration) *nativeResult {
 	cmd := exec.Command(bin, "-test.run", "^TestReplay$", "-test.v", "-test.timeout", "120s")
 	cmd.Dir = repoRoot
-	cmd.Env = append(os.Environ(), "VX_MODEL="+modelPath)
+	cmd.Env = append(os.Environ(), "VX_MODEL="+modelPath, "VX_REPO="+repoRoot)
 	var buf bytes.Buffer
 	cmd.Stdout = &buf
 	cmd.Stderr = &buf
